@@ -289,6 +289,7 @@ namespace bxdecay0 {
     double * spthe1        = pars->spthe1;
     double * spthe2        = pars->spthe2;
     double & spmax         = pars->spmax;
+    BXDECAY0_VERIF_SCOPE("bb", modebb, istartbb, Qbb, Edlevel, EK, Zdbb, Adbb, ebb1, ebb2);
 
     // Constants:
     static const double pi     = M_PI;
@@ -502,6 +503,7 @@ namespace bxdecay0 {
         spmax       = gsl_pow_4((tmax + 1.) * pmax * decay0_fermi(Zdbb, emax));
       }
       istartbb = 1;
+      BXDECAY0_VERIF_NOTE("bb_init", e0, ebb1, ebb2, spmax, toallevents, imax);
       if (trace) {
         std::cerr << "[trace] bxdecay0::bb: Initializing the kinematics done." << std::endl;
       }
@@ -529,6 +531,7 @@ namespace bxdecay0 {
       double r  = (t1 + 1.) * p1 * decay0_fermi(Zdbb, t1 * emass) * (t2 + 1.) * p2 * decay0_fermi(Zdbb, t2 * emass)
                  * (t3 + 1.) * p3 * decay0_fermi(Zdbb, t3 * emass) * (t4 + 1.) * p4 * decay0_fermi(Zdbb, t4 * emass);
       double rr = prng_() * spmax;
+      BXDECAY0_VERIF_NOTE("bb_trial4", r, rr, spmax);
       if (rr > r) {
         goto label_4;
       }
@@ -555,6 +558,7 @@ namespace bxdecay0 {
     if (k < 1) {
       k = 1;
     }
+    BXDECAY0_VERIF_NOTE("bb_trial1", e1, k, spmax, (k >= 1 && k <= (int)bbpars::SPSIZE) ? spthe1[k - 1] : -1., (int)(e0 * 1000.));
     if (spmax * prng_() > spthe1[k - 1]) {
       goto label_1;
     }
@@ -645,6 +649,7 @@ namespace bxdecay0 {
         if (modebb == LEGACY_MODEBB_19) {
           fe2 = decay0_fe2_mod19(e2, params_);
         }
+        BXDECAY0_VERIF_NOTE("bb_trial2", e2, fe2, f2max, re2s, re2f);
       } while (f2max * prng_() > fe2);
     } else if (modebb == LEGACY_MODEBB_10) {
       // c energy of X-ray is fixed; no angular correlation
@@ -723,6 +728,7 @@ namespace bxdecay0 {
       }
     }
     double romaxt = a + std::abs(b) + c;
+    BXDECAY0_VERIF_NOTE("bb_pair", e1, e2, e0, a, b, c);
     double phi1;
     double ctet1;
     double stet1;
@@ -738,6 +744,7 @@ namespace bxdecay0 {
       ctet2 = 1. - 2. * prng_();
       stet2 = std::sqrt(1. - ctet2 * ctet2);
       ctet  = ctet1 * ctet2 + stet1 * stet2 * std::cos(phi1 - phi2);
+      BXDECAY0_VERIF_NOTE("bb_trial3", ctet, a, b, c, romaxt);
     } while (romaxt * prng_() > a + b * ctet + c * gsl_pow_2(ctet));
 
     particle part;
